@@ -14,7 +14,7 @@ func init() {
 		ID:    "C20",
 		Title: "Decoding hostile bytes fails cleanly",
 		Explanation: "Decides structural conditions of the decoders of pkg/client and internal/storage: " +
-			"(R1) a size that derives from decoded input (wire.ReadVarInt result, target of binary.Read, arithmetic on those) reaches make() only behind an upper-bound comparison against a constant or the remaining input length (and a lower bound for signed sizes); incremental append per successfully read element is accepted; " +
+			"(R1) a size that derives from decoded input (wire.ReadVarInt result, target of binary.Read, arithmetic on those) reaches make() only behind an upper-bound comparison against a constant or the remaining input length (and a lower bound for signed sizes); incremental append per successfully read element is accepted; a bound on an arithmetic expression counts only if the arithmetic is done in 64 bits (a 32-bit product can wrap past the test); " +
 			"(R2) slice expressions over stored data with computed bounds are behind a bounds test against the data length; " +
 			"(R3) an element of a freshly made slice of pointers is not dereferenced before it was assigned; " +
 			"(R4) every decoding loop performs a successful read on every path through an iteration, and a failed read leaves the loop; " +
@@ -26,10 +26,64 @@ func init() {
 	})
 }
 
+// taintCtx carries the interprocedural part of the decoded-input taint: parameters of module
+// functions that receive a decoded size from a caller, and per-function summaries saying whether a
+// result can carry an unbounded decoded value back.
+type taintCtx struct {
+	inScope    func(*ssa.Function) bool
+	paramTaint map[*ssa.Parameter]bool
+	summary    map[*ssa.Function]map[int]bool // fn -> result index -> may return an unbounded decoded value
+	busy       map[*ssa.Function]bool
+	taints     map[*ssa.Function]map[ssa.Value]bool
+	// helperBounded[v]: v is the result of a module helper that was handed a decoded value and
+	// returns it only behind a bound (or a value computed from such results)
+	helperBounded map[ssa.Value]*ssa.Function
+	dirty         bool
+}
+
+func newTaintCtx(inScope func(*ssa.Function) bool) *taintCtx {
+	return &taintCtx{inScope: inScope, paramTaint: map[*ssa.Parameter]bool{}, summary: map[*ssa.Function]map[int]bool{},
+		busy: map[*ssa.Function]bool{}, taints: map[*ssa.Function]map[ssa.Value]bool{}, helperBounded: map[ssa.Value]*ssa.Function{}}
+}
+
+func isIntegerType(t types.Type) bool {
+	b, ok := t.Underlying().(*types.Basic)
+	return ok && b.Info()&types.IsInteger != 0
+}
+
+// resultUnbounded: can result idx of callee return a decoded value that no bound was applied to,
+// given the parameters currently known to be tainted?
+func (tc *taintCtx) resultUnbounded(callee *ssa.Function, idx int) bool {
+	if tc.busy[callee] {
+		return true // recursion: assume the worst
+	}
+	tc.busy[callee] = true
+	defer delete(tc.busy, callee)
+	t := tc.decodedTaint(callee)
+	for _, ret := range returnsOf(callee) {
+		if idx >= len(ret.Results) {
+			continue
+		}
+		v := ret.Results[idx]
+		if !t[v] {
+			continue
+		}
+		if ok, _ := sizeBounded(ret, v, t); !ok {
+			return true
+		}
+	}
+	return false
+}
+
 // decodedTaint computes the values of fn that derive from decoded input.
-func decodedTaint(fn *ssa.Function) map[ssa.Value]bool {
+func (tc *taintCtx) decodedTaint(fn *ssa.Function) map[ssa.Value]bool {
 	t := map[ssa.Value]bool{}
 	srcAllocs := map[*ssa.Alloc]bool{}
+	for _, p := range fn.Params {
+		if tc.paramTaint[p] {
+			t[p] = true
+		}
+	}
 	for _, s := range sitesIn(fn) {
 		switch calleeName(s.CC) {
 		case "github.com/tokenized/pkg/wire.ReadVarInt":
@@ -73,6 +127,9 @@ func decodedTaint(fn *ssa.Function) map[ssa.Value]bool {
 					}
 				case *ssa.Convert:
 					taint = t[x.X]
+					if h := tc.helperBounded[x.X]; h != nil && !taint {
+						tc.helperBounded[x] = h
+					}
 				case *ssa.ChangeType:
 					taint = t[x.X]
 				case *ssa.BinOp:
@@ -86,6 +143,14 @@ func decodedTaint(fn *ssa.Function) map[ssa.Value]bool {
 							taint = true
 						}
 					}
+				case *ssa.Extract:
+					if call, ok := x.Tuple.(*ssa.Call); ok && isIntegerType(x.Type()) {
+						taint = tc.callResultTainted(call, x.Index, t, x)
+					}
+				case *ssa.Call:
+					if isIntegerType(x.Type()) {
+						taint = tc.callResultTainted(x, 0, t, x)
+					}
 				}
 				if taint {
 					t[v] = true
@@ -94,7 +159,48 @@ func decodedTaint(fn *ssa.Function) map[ssa.Value]bool {
 			}
 		}
 	}
+	// hand decoded values down to module callees
+	for _, s := range sitesIn(fn) {
+		callee := s.CC.StaticCallee()
+		if callee == nil || callee.Blocks == nil || !tc.inScope(callee) {
+			continue
+		}
+		for i, a := range s.CC.Args {
+			if t[a] && i < len(callee.Params) && !tc.paramTaint[callee.Params[i]] {
+				tc.paramTaint[callee.Params[i]] = true
+				tc.dirty = true
+			}
+		}
+	}
+	tc.taints[fn] = t
 	return t
+}
+
+// callResultTainted: the call is to a module function that was given a decoded value; its result
+// is tainted unless the callee bounds it on every return (then it is recorded as helper-bounded).
+func (tc *taintCtx) callResultTainted(call *ssa.Call, idx int, t map[ssa.Value]bool, res ssa.Value) bool {
+	callee := call.Call.StaticCallee()
+	if callee == nil || callee.Blocks == nil || !tc.inScope(callee) {
+		return false
+	}
+	given := false
+	for i, a := range call.Call.Args {
+		if t[a] && i < len(callee.Params) {
+			given = true
+			if !tc.paramTaint[callee.Params[i]] {
+				tc.paramTaint[callee.Params[i]] = true
+				tc.dirty = true
+			}
+		}
+	}
+	if !given {
+		return false
+	}
+	if tc.resultUnbounded(callee, idx) {
+		return true
+	}
+	tc.helperBounded[res] = callee
+	return false
 }
 
 // taintChain returns the tainted values that v was computed from (including v).
@@ -147,91 +253,199 @@ func isSigned(tp types.Type) bool {
 	return ok && b.Info()&types.IsInteger != 0 && b.Info()&types.IsUnsigned == 0
 }
 
+// sizeBounded: is the decoded value size bounded on every path to instruction in? Upper bound by a
+// constant or by a length of the input (and a lower bound if signed). A phi is decided per incoming
+// edge (`if n > max { n = max }` bounds n although no single edge dominates the use).
+func sizeBounded(in ssa.Instruction, size ssa.Value, t map[ssa.Value]bool) (bool, []string) {
+	if phi, ok := size.(*ssa.Phi); ok {
+		for i, e := range phi.Edges {
+			if !t[e] {
+				continue
+			}
+			pred := phi.Block().Preds[i]
+			last := pred.Instrs[len(pred.Instrs)-1]
+			if ok, w := sizeBoundedEdge(last, phi.Block(), e, t); !ok {
+				return false, w
+			}
+		}
+		return true, nil
+	}
+	return sizeBoundedEdge(in, nil, size, t)
+}
+
+// sizeBoundedEdge decides one value at one program point; if succ is non-nil the point is the edge
+// from in's block to succ (the branch taken by that edge counts).
+func sizeBoundedEdge(in ssa.Instruction, succ *ssa.BasicBlock, size ssa.Value, t map[ssa.Value]bool) (bool, []string) {
+	chain := taintChain(size, t)
+	srcs := taintSources(chain)
+	inChain := func(v ssa.Value) bool {
+		if chain[v] {
+			return true
+		}
+		if !t[v] {
+			return false
+		}
+		for s := range taintSources(taintChain(v, t)) {
+			if srcs[s] {
+				return true
+			}
+		}
+		return false
+	}
+	// arithmetic on decoded values only bounds them if it cannot wrap: 64-bit operands
+	wide := func(v ssa.Value) bool {
+		bo, ok := v.(*ssa.BinOp)
+		if !ok {
+			if cv, isConv := v.(*ssa.Convert); isConv {
+				if inner, isBo := cv.X.(*ssa.BinOp); isBo {
+					bo, ok = inner, true
+				}
+			}
+		}
+		if !ok {
+			return true
+		}
+		switch bo.Op {
+		case token.MUL, token.ADD, token.SHL:
+			if bt, isB := bo.Type().Underlying().(*types.Basic); isB {
+				switch bt.Kind() {
+				case types.Int64, types.Uint64, types.Int, types.Uint, types.Uintptr:
+					return true
+				}
+				return false
+			}
+		}
+		return true
+	}
+	inChainWide := func(v ssa.Value) bool { return inChain(v) && wide(v) }
+	bounded := func(iff *ssa.If, br int) bool {
+		if upperBoundEdge(inChainWide, -1)(iff, br) {
+			return true
+		}
+		r, ok := edgeRel(iff, br)
+		if !ok {
+			return false
+		}
+		x, y, op := r.X, r.Y, r.Op
+		if !inChain(x) {
+			x, y, op = y, x, swapOp(op)
+		}
+		if !inChain(x) || !wide(x) {
+			return false
+		}
+		if op != token.LEQ && op != token.LSS {
+			return false
+		}
+		// y must be a length of the input
+		for _, rr := range rootsAll(y) {
+			if call, ok := rr.(*ssa.Call); ok {
+				nm := calleeName(&call.Call)
+				if strings.HasSuffix(nm, ".Len") || nm == "builtin.len" {
+					return true
+				}
+			}
+		}
+		return false
+	}
+	// the edge into succ itself may be the bounding edge
+	edgeIs := func(g EdgePred) bool {
+		if succ == nil {
+			return false
+		}
+		iff, ok := lastIf(in.Block())
+		if !ok {
+			return false
+		}
+		for br, sb := range in.Block().Succs {
+			if sb == succ && g(iff, br) {
+				return true
+			}
+		}
+		return false
+	}
+	ok, w := mustPass(in, bounded)
+	if !ok && edgeIs(bounded) {
+		ok = true
+	}
+	okLow := true
+	// a signed size needs a lower bound too, unless the upper bound was established on an unsigned
+	// value of the chain (then the later conversion to a signed type cannot produce a negative)
+	unsignedBound := func(iff *ssa.If, br int) bool {
+		return upperBoundEdge(func(v ssa.Value) bool { return inChainWide(v) && !isSigned(v.Type()) }, -1)(iff, br)
+	}
+	if ok && isSigned(size.Type()) {
+		if okU, _ := mustPass(in, unsignedBound); okU || edgeIs(unsignedBound) {
+			return true, nil
+		}
+		okLow, w = mustPass(in, lowerBoundEdge(inChain, 0))
+		if !okLow && edgeIs(lowerBoundEdge(inChain, 0)) {
+			okLow = true
+		}
+	}
+	return ok && okLow, w
+}
+
 func runC20(c *Check) {
 	scope := []string{"client", "storage"}
 	// ---- R1
 	n1 := 0
+	scoped := map[*ssa.Function]bool{}
 	for _, fn := range c.P.FuncsIn(scope...) {
-		t := decodedTaint(fn)
-		if len(t) == 0 {
-			continue
+		scoped[fn] = true
+	}
+	tc := newTaintCtx(func(f *ssa.Function) bool { return scoped[f] })
+	for round := 0; round < 8; round++ { // parameters tainted by callers: iterate to a fixpoint
+		tc.dirty = false
+		for _, fn := range c.P.FuncsIn(scope...) {
+			tc.decodedTaint(fn)
 		}
+		if !tc.dirty {
+			break
+		}
+	}
+	for _, fn := range c.P.FuncsIn(scope...) {
+		t := tc.decodedTaint(fn)
 		for _, b := range fn.Blocks {
 			for _, in := range b.Instrs {
 				var size ssa.Value
+				var helper *ssa.Function
 				var what string
+				pick := func(vs ...ssa.Value) {
+					for _, v := range vs {
+						if v != nil && t[v] && size == nil {
+							size = v
+						}
+					}
+					for _, v := range vs {
+						if v != nil && size == nil && helper == nil && tc.helperBounded[v] != nil {
+							helper = tc.helperBounded[v]
+						}
+					}
+				}
 				switch x := in.(type) {
 				case *ssa.MakeSlice:
-					if t[x.Len] {
-						size = x.Len
-					} else if t[x.Cap] {
-						size = x.Cap
-					}
+					pick(x.Len, x.Cap)
 					what = types.TypeString(x.Type(), func(p *types.Package) string { return p.Name() })
 				case *ssa.MakeMap:
-					if x.Reserve != nil && t[x.Reserve] {
-						size = x.Reserve
-					}
+					pick(x.Reserve)
 					what = "map"
+				default:
+					continue
 				}
+				key := fmt.Sprintf("%s#make-%s", c.P.Key(fn), what)
 				if size == nil {
+					if helper != nil {
+						n1++
+						c.Touch(fn)
+						c.Touch(helper)
+						c.Ok("R1", key, in.Pos(), "taint-to-allocation", "the decoded size reaches the allocation only through %s, which returns it behind an upper bound on every path", c.P.Key(helper))
+					}
 					continue
 				}
 				n1++
 				c.Touch(fn)
-				chain := taintChain(size, t)
-				srcs := taintSources(chain)
-				inChain := func(v ssa.Value) bool {
-					if chain[v] {
-						return true
-					}
-					if !t[v] {
-						return false
-					}
-					for s := range taintSources(taintChain(v, t)) {
-						if srcs[s] {
-							return true
-						}
-					}
-					return false
-				}
-				key := fmt.Sprintf("%s#make-%s", c.P.Key(fn), what)
-				// sanitiser: upper bound by constant, or by a length of the input
-				bounded := func(iff *ssa.If, br int) bool {
-					if upperBoundEdge(inChain, -1)(iff, br) {
-						return true
-					}
-					r, ok := edgeRel(iff, br)
-					if !ok {
-						return false
-					}
-					x, y, op := r.X, r.Y, r.Op
-					if !inChain(x) {
-						x, y, op = y, x, swapOp(op)
-					}
-					if !inChain(x) {
-						return false
-					}
-					if op != token.LEQ && op != token.LSS {
-						return false
-					}
-					// y must be a length of the input
-					for _, rr := range rootsAll(y) {
-						if call, ok := rr.(*ssa.Call); ok {
-							nm := calleeName(&call.Call)
-							if strings.HasSuffix(nm, ".Len") || nm == "builtin.len" {
-								return true
-							}
-						}
-					}
-					return false
-				}
-				ok, w := mustPass(in, bounded)
-				okLow := true
-				if ok && isSigned(size.Type()) {
-					okLow, w = mustPass(in, lowerBoundEdge(inChain, 0))
-				}
-				c.Decide(ok && okLow, "R1", key, in.Pos(), "taint-to-allocation", w,
+				ok, w := sizeBounded(in, size, t)
+				c.Decide(ok, "R1", key, in.Pos(), "taint-to-allocation", w,
 					"decoded size is bounded before the allocation", "a count/size decoded from the input reaches make("+what+", n) without an upper bound (and lower bound if signed): a few bytes can claim 2^63 elements (makeslice panic) or gigabytes")
 			}
 		}
@@ -384,7 +598,7 @@ func runC20(c *Check) {
 			}
 		}
 	}
-	c.Min("R3", "fresh pointer slices in decoders", n3, 3)
+	c.Min("R3", "fresh pointer slices in decoders", n3, 2)
 
 	// ---- R4 decoding loops make progress
 	n4 := 0
